@@ -385,6 +385,39 @@ func runHintPair(c *core.Ctx) {
 			return true
 		})
 	}
+	// the hint a resource gives is the value immediately before this write: the field it is about to overwrite
+	hints := 0
+	for _, f2 := range e.Ix.Funcs() {
+		i2 := f2.Pkg.Info
+		var g2 *an.Graph
+		ast.Inspect(f2.Body(), func(m ast.Node) bool {
+			call, ok := m.(*ast.CallExpr)
+			if !ok || !an.IsMethodNamed(an.CalleeFunc(i2, call), an.PkgDistsys, "ArchetypeInterface", "oldValueHint") || len(call.Args) != 1 {
+				return true
+			}
+			hints++
+			fld := an.SelectedField(i2, call.Args[0])
+			if fld == nil {
+				c.Ok(f2.Name()+":hint-source", call.Pos(), "the hint is a local value (old value handed in by the substitution helper)")
+				return true
+			}
+			if g2 == nil {
+				g2 = e.Graph(f2)
+			}
+			overwritten := false
+			for _, a := range g2.FindAtoms(func(a ast.Node) bool { _, ok := fieldIsAssigned(i2, a, fld); return ok }) {
+				if at := g2.AtomOf(call); at != nil && g2.Dominates(at, a) {
+					overwritten = true
+				}
+			}
+			c.Check(overwritten, f2.Name()+":hint-source", call.Pos(), "the hinted field is the one this write then overwrites (the immediately previous value)",
+				"the old-value hint is taken from field "+fld.Name()+", which this write does not overwrite: after the first write of a section the logged oldValue is not the value immediately before the write, so replaying the trace contradicts it")
+			return true
+		})
+	}
+	if hints < 2 {
+		c.Lost("oldValueHint call sites", "expected >= 2 hint sites, found %d", hints)
+	}
 	g := e.Graph(fn)
 	info := fn.Pkg.Info
 	arms := g.FindAtoms(func(a ast.Node) bool {
